@@ -48,6 +48,7 @@ THEOREMS = [
     "Klong.C15.timerc_result",
     "Klong.C15.callback_reresolved",
     "Klong.C15.live_timer_scheduled",
+    "Klong.C15.due_handle_runs_body_or_stops",
     "Klong.C15.pinned_cancel_inside_callback_keeps_firing",
     "Klong.C15.pinned_timerc_after_raise_reports_one",
     "Klong.C15.frozen_clock_double_tick",
@@ -99,6 +100,9 @@ class VLoop(asyncio.SelectorEventLoop):
             self.current = rec
             try:
                 return callback(*a)
+            except BaseException as e:
+                rec["exc"] = e          # what the runner let escape to the loop
+                raise
             finally:
                 self.current = None
                 if self.on_exit:
@@ -147,8 +151,11 @@ class Real:
          ["forget", k]                           th_k::0 - the program drops its reference
          ["alias", i, k]                         alI::<name timer k was created on>  (same function
                                                  object under a second name)
-         ["rebind", name]                        name::{<fresh function>}  (any name, whether or not a
-                                                 timer was created on it)
+         ["rebind", name, arity]                 name::{<fresh function>}  (any name, whether or not a
+                                                 timer was created on it); arity optional (0..3)
+       `create` takes an optional 6th element (arity of the fresh callback), `redefine` an optional 4th,
+       the action "redef:v:a" re-binds to a function of arity a.  A tick calls the callback with no
+       arguments, so a binding of arity > 0 cannot be invoked: the timer must then stop.
        Klong path: every function is `{tk(fid)}` with a globally unique fid, so the tick event says
        WHICH function ran; a timer must run whatever its creation name is bound to at that tick.
          ["pass", lat]                           run the loop once at (next deadline + lat)
@@ -162,6 +169,7 @@ class Real:
         self.loop.set_exception_handler(lambda l, c: self.exc.append(repr(c.get("exception"))))
         self.loop.on_exit = self._on_exit
         self.exc = []
+        self.arity_raises = 0   # RuntimeErrors of KGFnWrapper's arity check that the property expects
         self.ths = []           # per timer: callable -> KGTimerHandler or None (strong only while the
                                 # program itself retains the handle; a weakref afterwards)
         self.var = []           # per timer: name of the Klong variable holding the handle, or None
@@ -248,9 +256,11 @@ class Real:
             elif act.startswith("other:"):
                 self.do_timerc(int(act.split(":")[1]), inside=k)
             elif act.startswith("redef:"):
-                fid, others = self.do_redefine(k, int(act.split(":")[1]), inside=True)
-                self.dispatch_info["act"] = f"redef:{fid}"
-                self.dispatch_info["extra"] = others
+                parts = act.split(":")
+                ar = int(parts[2]) if len(parts) > 2 and self.klong else 0
+                fid, others = self.do_redefine(k, int(parts[1]), inside=True, arity=ar)
+                self.dispatch_info["act"] = f"redef:{fid}:{ar}"
+                self.dispatch_info["extra"] = [(j, f, ar) for j, f in others]
             elif act == "raise":
                 self.emit(f"raised:{k}")
                 self.spec.raised(k)
@@ -269,8 +279,8 @@ class Real:
         L = self.loop
         info = getattr(self, "dispatch_info", None)
         self.dispatch_info = None
-        if info is None:            # the handle ran without invoking the callback
-            self.cur = []
+        if info is None:            # the loop ran a due handle, the callback body did not run
+            self.uninvoked(rec)
             return
         req = info.get("drift_req", 0)
         drift = req if (req and L.drift == 0) else 0
@@ -284,12 +294,34 @@ class Real:
             impl = f"error {e}"
         self.cur = []
         self.disp.append((line, impl))
-        for j, fid in info.get("extra", []):      # other timers created on the rebound name
+        for j, fid, ar in info.get("extra", []):      # other timers created on the rebound name
             self.obs.append(f"redefined:{j}:{fid}")
             try:
-                self.disp.append((f"redefine k={j} v={fid}", f"ok ev=redefined:{j}:{fid} {self.digest()}"))
+                self.disp.append((f"redefine k={j} v={fid} a={ar}", f"ok ev=redefined:{j}:{fid} {self.digest()}"))
             except ValueError as e:
-                self.disp.append((f"redefine k={j} v={fid}", f"error {e}"))
+                self.disp.append((f"redefine k={j} v={fid} a={ar}", f"error {e}"))
+
+    def uninvoked(self, rec):
+        """A due handle of timer k ran and the hook was never entered.  Legitimate only when the
+        current binding of the timer's name takes parameters (KGFnWrapper._apply raises before
+        the body); then the timer must be dead afterwards - never armed with the body not run."""
+        L = self.loop
+        k = rec["k"]
+        if k is None or k >= len(self.meta):
+            self.cur = []
+            return
+        raised = rec.get("exc") is not None
+        armed = any(r["k"] == k for r in L.pending())
+        if raised:
+            self.emit(f"raised:{k}")
+        self.spec.uninvoked(k, raised, armed)
+        try:
+            impl = f"ok ev={';'.join(self.cur)} {self.digest()}"
+        except ValueError as e:
+            impl = f"error {e}"
+        self.cur = []
+        self.disp.append((f"dispatch h={rec['id']} adv=0 dur=0 ret=1 act=none drift=0", impl))
+        self.ctx.bump("handle-ran-body-not-run")
 
     # ---- operations
     def held(self, k):
@@ -319,16 +351,19 @@ class Real:
         self.spec.timerc(k, r, inside)
         return r
 
-    def define(self, name):
-        """name::{tk(fid)} with a fresh function; returns fid"""
+    def define(self, name, arity=0):
+        """name::{tk(fid)} with a fresh function taking `arity` parameters; returns fid"""
         fid = self.next_fid
         self.next_fid += 1
-        self.klong(f"{name}::{{tk({fid})}}")
-        self.names[name] = (fid, fid)
-        self.spec.bind(name, fid)
+        params = "".join(f"{p};" for p in "xyz"[:arity])        # {x;y;tk(7)} has arity 2
+        self.klong(f"{name}::{{{params}tk({fid})}}")
+        self.names[name] = (fid, fid, arity)
+        self.spec.bind(name, fid, arity)
+        if arity:
+            self.ctx.bump(f"function-arity-{arity}")
         return fid
 
-    def do_redefine(self, k, v, inside=False):
+    def do_redefine(self, k, v, inside=False, arity=0):
         """rebind the name timer k was created on; returns (fid, [(j, fid) other timers on that name])"""
         if not self.klong:
             self.meta[k]["pyver"] = v       # a plain Python callable is its own binding
@@ -336,26 +371,26 @@ class Real:
             self.spec.redefined(k, v)
             return v, []
         name = self.tname[k]
-        fid = self.define(name)
+        fid = self.define(name, arity)
         self.emit(f"redefined:{k}:{fid}")
         others = [(j, fid) for j, n in enumerate(self.tname) if n == name and j != k]
         if not inside:
-            self.sync(f"redefine k={k} v={fid}")
+            self.sync(f"redefine k={k} v={fid} a={arity}")
             for j, _ in others:
                 self.emit(f"redefined:{j}:{fid}")
-                self.sync(f"redefine k={j} v={fid}")
+                self.sync(f"redefine k={j} v={fid} a={arity}")
         self.ctx.bump("rebind:timer-name")
         return fid, others
 
-    def do_rebind(self, name):
+    def do_rebind(self, name, arity=0):
         """name::{fresh function} for any known name"""
         if not self.klong or name not in self.names:
             return
         users = [j for j, n in enumerate(self.tname) if n == name]
         if users:
-            self.do_redefine(users[0], 0)
+            self.do_redefine(users[0], 0, arity=arity)
         else:
-            self.define(name)
+            self.define(name, arity)
             self.ctx.bump("rebind:other-name")
 
     def do_alias(self, i, k):
@@ -367,10 +402,10 @@ class Real:
             return                      # keep it simple: never re-point a name a timer was created on
         self.klong(f"{new}::{old}")
         self.names[new] = self.names[old]
-        self.spec.bind(new, self.names[old][0])
+        self.spec.bind(new, self.names[old][0], self.names[old][2])
         self.ctx.bump("alias")
 
-    def do_create(self, interval, script, hold="keep", on=None):
+    def do_create(self, interval, script, hold="keep", on=None, arity=0):
         from klongpy.sys_fn_timer import _call_periodic, KGTimerHandler
         k = len(self.ths)
         L = self.loop
@@ -380,7 +415,7 @@ class Real:
                 name = on
             else:
                 name = f"cb{k}"
-                self.define(name)
+                self.define(name, arity)
             # the same function object is bound under another name as well: which name the
             # wrapper follows is then decided by KGFnWrapper._find_symbol's search order
             shared = sum(1 for v in self.names.values() if v[1] == self.names[name][1]) > 1
@@ -431,9 +466,9 @@ class Real:
     def after_create(self, k):
         """Klong path: tell the model which function the creation name is bound to"""
         if self.klong:
-            fid = self.names[self.tname[k]][0]
+            fid, _, arity = self.names[self.tname[k]]
             self.emit(f"redefined:{k}:{fid}")
-            self.sync(f"redefine k={k} v={fid}")
+            self.sync(f"redefine k={k} v={fid} a={arity}")
 
     def sync(self, line):
         """send one non-dispatch input to the model and compare"""
@@ -486,13 +521,14 @@ class Real:
                     gc.collect()        # CPython frees an unreferenced handler at once; make it explicit
                     self.collect_due = False
                 if op == "create":
-                    self.do_create(st[1], st[2], st[3] if len(st) > 3 else "keep", st[4] if len(st) > 4 else None)
+                    self.do_create(st[1], st[2], st[3] if len(st) > 3 else "keep", st[4] if len(st) > 4 else None,
+                                   st[5] if len(st) > 5 else 0)
                     self.sync(f"create interval={st[1]}")
                     self.after_create(len(self.ths) - 1)
                 elif op == "alias":
                     self.do_alias(st[1], st[2])
                 elif op == "rebind":
-                    self.do_rebind(st[1])
+                    self.do_rebind(st[1], st[2] if len(st) > 2 else 0)
                 elif op == "forget":
                     self.forget(st[1])
                 elif op == "advance":
@@ -504,7 +540,7 @@ class Real:
                         self.sync(f"timerc k={st[1]}")
                 elif op == "redefine":
                     if st[1] < len(self.ths):
-                        self.do_redefine(st[1], st[2])
+                        self.do_redefine(st[1], st[2], arity=st[3] if len(st) > 3 else 0)
                         if not self.klong:
                             self.sync(f"redefine k={st[1]} v={st[2]}")
                 elif op == "pass":
@@ -512,6 +548,9 @@ class Real:
                 if self.exc:
                     self.ctx.bump("callback-exceptions", len(self.exc))
                     stray = [e for e in self.exc if "callback script: raise" not in e]
+                    while self.arity_raises and any("Klong function called with 0" in e for e in stray):
+                        stray.remove(next(e for e in stray if "Klong function called with 0" in e))
+                        self.arity_raises -= 1
                     if stray and not self.spec.dead:
                         self.oracle_fail("timer:loop-exception", "the runner raises only what the callback raised",
                                          "; ".join(stray)[:300])
@@ -560,6 +599,7 @@ class Spec:
         self.real = real
         self.tm = {}
         self.names = {}         # name -> function id currently bound to it
+        self.arity = {}         # name -> number of parameters of that function
         self.dead = False
         self.ticked = set()
         self.pass_t = None
@@ -568,8 +608,36 @@ class Spec:
         if not self.dead:
             self.real.oracle_fail(key, exp, obs)
 
-    def bind(self, name, fid):
+    def bind(self, name, fid, arity=0):
         self.names[name] = fid
+        self.arity[name] = arity
+
+    def uninvoked(self, k, raised, armed):
+        """the loop ran a due handle of timer k and the callback body did not run"""
+        m = self.tm.get(k)
+        if m is None or self.dead:
+            return
+        ar = self.arity.get(m["name"], 0) if m["name"] is not None else 0
+        if not m["live"]:
+            self.fail("timer:tick-after-stop", f"no loop handle of timer {k} runs after it was stopped ({m['cause']})",
+                      "a handle of the timer ran")
+        elif ar == 0:
+            # (a timer created while its function was also bound under another name follows that
+            # other name - the known aliased-at-creation class - and may meet ITS arity)
+            self.fail("timer:reresolve:aliased-at-creation" if m["shared"] else "timer:body-not-run",
+                      f"the callback of timer {k} (no parameters) runs at its boundary",
+                      "the loop ran the timer's handle, the body did not run" + (" (raised)" if raised else ""))
+        else:
+            # a tick calls the callback with no arguments: a callback that takes parameters cannot be
+            # invoked; then the timer must die - never "armed but body not run"
+            if armed:
+                self.fail("timer:armed-without-running",
+                          f"timer {k} (callback takes {ar} parameter(s), body cannot run) is dead: nothing pending",
+                          "the timer re-armed itself without running the body")
+            else:
+                self.real.arity_raises += 1
+            self.stop(k, "raise")
+        self.ticked.add(k)
 
     def created(self, k, start, interval, name=None, shared=False):
         self.tm[k] = dict(live=True, start=start, I=interval, nb=start + interval, last_b=0, ver=0, cause=None,
@@ -669,7 +737,8 @@ class Spec:
 
 # --------------------------------------------------------------------------- generators
 
-ACTS = ["none"] * 10 + ["self", "other:0", "other:1", "other:2", "redef:3", "redef:5", "redef:3", "raise"]
+ACTS = ["none"] * 12 + ["self", "other:0", "other:1", "other:2", "redef:3", "redef:5", "redef:3", "raise",
+                        "redef:3:1", "redef:3:2"]
 
 
 def gen_script(rng, n, interval, ntimers_hint):
@@ -709,7 +778,8 @@ def gen_case(rng, long=False):
         iv = rng.choice(ivs)
         intervals.append(iv)
         steps.append(["create", iv, gen_script(rng, rng.randrange(2, 12 if long else 8), iv, nt),
-                      rng.choice(["keep", "keep", "keep", "drop"])])
+                      rng.choice(["keep", "keep", "keep", "drop"]), None,
+                      rng.choice([0] * 12 + [1, 2, 3])])      # arity of the fresh callback
         if rng.random() < 0.5:
             steps.append(["advance", rng.choice([1, 2, 3, 100, SEC // 2])])
     npass = rng.randrange(3, 30 if long else 12)
@@ -721,13 +791,13 @@ def gen_case(rng, long=False):
         elif r < 0.82:
             steps.append(["timerc", rng.choice(list(range(nt)) + [nt])])
         elif r < 0.90:
-            steps.append(["redefine", rng.randrange(nt), rng.choice([1, 2, 4])])
+            steps.append(["redefine", rng.randrange(nt), rng.choice([1, 2, 4]), rng.choice([0, 0, 0, 0, 1, 2, 3])])
         elif r < 0.92:
             steps.append(["forget", rng.randrange(nt)])
         elif r < 0.94:
             steps.append(["alias", rng.randrange(2), rng.randrange(nt)])
         elif r < 0.955:
-            steps.append(["rebind", rng.choice(["al0", "al1", "cb0", "cb1"])])
+            steps.append(["rebind", rng.choice(["al0", "al1", "cb0", "cb1"]), rng.choice([0, 0, 0, 1, 2])])
         elif r < 0.985 and len(intervals) < 4:
             iv2 = rng.choice(ivs)
             intervals.append(iv2)
@@ -771,6 +841,27 @@ def alias_case(iv, cancel_a, rebind_before, after, third, rng=None, lat=0, t0=10
                   ["pass", lat], ["pass", lat]]
     steps += [["timerc", 1], ["pass", lat], ["timerc", 0]]
     return dict(path="klong", res=2, minadv=2, t0=t0, steps=steps)
+
+
+def arity_case(iv, a0, a1, back, lat=0, t0=1000 * SEC, rng=None):
+    """callbacks that take parameters: created so (a0) or re-bound so while the timer runs (a1), and
+    re-bound to a nilad again before / after the next boundary.  The tick passes no arguments: the body of
+    such a binding cannot run, the timer must die at that boundary (and `.timerc` then report 0)."""
+    steps = [["create", iv, calm_script(rng, 10), "keep", None, a0], ["pass", lat], ["pass", lat],
+             ["redefine", 0, 1, a1]]
+    if back == "before":
+        steps.append(["redefine", 0, 2, 0])
+    steps.append(["pass", lat])
+    if back == "after":
+        steps.append(["redefine", 0, 2, 0])
+    steps += [["pass", lat], ["pass", lat], ["timerc", 0], ["pass", lat]]
+    return dict(path="klong", res=2, minadv=2, t0=t0, steps=steps)
+
+
+def enum_arity_cases():
+    for iv, a0, a1, back in itertools.product([0, SEC, 2 * SEC], [0, 1, 2, 3], [0, 1, 2, 3],
+                                              ["none", "before", "after"]):
+        yield arity_case(iv, a0, a1, back)
 
 
 def enum_alias_cases():
@@ -835,6 +926,11 @@ WITNESSES = [
     # known finding (findings.d/C15.json): al0::cb0 while cb0 still holds the function, timer on al0,
     # then al0 re-bound - the wrapper follows cb0, the first name found for the value
     alias_case(SEC, 1, 0, "al0", 0),
+    # the callback is re-bound to a function that takes a parameter while the timer runs
+    arity_case(2 * SEC, 0, 1, "none"),
+    # created on a callback with a parameter whose body would return 0
+    dict(path="klong", res=2, minadv=2, t0=1000 * SEC, steps=[
+        ["create", SEC, [[0, 0, 0, "none", 0]], "keep", None, 1]] + [["pass", 0]] * 4 + [["timerc", 0]]),
 ]
 
 
@@ -918,7 +1014,8 @@ def run(ctx):
                 ".timerc / redefinition / creation between passes x handle retention (th::.timer(...) kept, bare .timer(...) "
                 "discarded, th::0 or th::.timer(<second>) later, with gc.collect()) x naming histories (function kept under a "
                 "second name, names re-bound between timer creations, timers created on aliases / on re-used names; "
-                "every function has a unique id so the tick says which function ran); distinct = distinct scenarios; non-trivial = at least two ticks")
+                "every function has a unique id so the tick says which function ran) x callback arity 0-3 (created so, "
+                "re-bound to take parameters while the timer runs, and back); distinct = distinct scenarios; non-trivial = at least two ticks")
     ctx.assumptions += [
         "earliness < minAdvance: at least one loop resolution passes between the loop's dispatch decision and the "
         "callback's start (the virtual loop advances the clock on entry to every handle); the frozen-clock regime is "
@@ -938,8 +1035,18 @@ def run(ctx):
         for case in enum_alias_cases():
             run_case(ctx, case, drv)
             ctx.bump("enumerated-naming")
+        for case in enum_arity_cases():
+            run_case(ctx, case, drv)
+            ctx.bump("enumerated-arity")
         n = 500 if quick else 6000
         for i in range(n):
+            if i % 10 == 7:      # seeded arity history
+                r = ctx.rng
+                case = arity_case(r.choice([0, SEC, 2 * SEC, 5 * SEC]), r.choice([0, 0, 1, 2, 3]), r.randrange(4),
+                                  r.choice(["none", "before", "after"]), rng=r,
+                                  lat=r.choice([0, 0, -1, 341, 1400]), t0=r.choice([0, 1000 * SEC + 1, 123457]))
+                run_case(ctx, case, drv)
+                continue
             if i % 5 == 4:       # seeded naming history
                 r = ctx.rng
                 case = alias_case(r.choice([0, SEC, 2 * SEC, 5 * SEC]), r.randrange(2), r.randrange(2),
